@@ -84,6 +84,9 @@ const S2: &[&str] = &["spec: forall X (r(X) <-> exists Y (e(X, Y))).", "spec: fo
 const UGU: &str = "input: _q/1. input: _n -> integer. output: _p/1. assumption: _n >= 0.";
 const PU: &[&str] = &["_p(X) :- _q(X), X != _n.", "_p(X) :- _q(X), not _t(X). _t(_n).", "_p(X) :- _q(X), X != _c.", "_p(X) :- _q(X), not _t(X). _t(X) :- _q(X), X = _n.", "_p(X) :- _q(X), X < _n + 1, X != _n."];
 
+const UGAB: &str = "input: q/1. input: a -> integer. input: b -> integer. output: p/1.";
+const PAB: &[&str] = &["p(X) :- q(X), X > b - a.", "p(X) :- q(X), X + a > b.", "p(X) :- q(X), not t(X). t(b * a).", "p(X) :- q(X), X > b - a, X != b * a."];
+
 const P0: &[&str] = &[
     "p :- q.", "p :- not not q.", "p :- q, not t. t :- not q.", "p :- t. t :- q.", "p :- not t. t :- not q.", "{p} :- q.", "p :- q. :- not q.", "p.", "p :- t.", "p :- not t.", "t. p :- t, q.",
     "p :- q. :- p, not q.", "p :- q, t. t.", "p :- q. t :- p.", "p :- q, not t.", "p :- t. t :- u. u :- q.", "{p}. :- p, not q. :- q, not p.", "p :- q, not not p.", "p :- not not p, q.",
@@ -121,7 +124,7 @@ pub fn cases(deep: bool) -> Vec<(Case, Vec<&'static [&'static str]>)> {
     let mut out = Vec::new();
     let mut k = 0usize;
     let flags_for = |k: usize| -> Vec<&'static [&'static str]> { if deep { FLAGS.to_vec() } else { vec![FLAGS[0], FLAGS[1 + k % (FLAGS.len() - 1)], FLAGS[1 + (k / 2 + 3) % (FLAGS.len() - 1)]] } };
-    for (group, ug) in [(P0, UG0), (P0S, UG0S), (P1, UG1), (P1, UG1A), (PN, UGN), (PC, UGC), (P2, UG2), (PU, UGU)] {
+    for (group, ug) in [(P0, UG0), (P0S, UG0S), (P1, UG1), (P1, UG1A), (PN, UGN), (PC, UGC), (P2, UG2), (PU, UGU), (PAB, UGAB)] {
         let n = group.len();
         for i in 0..n {
             let js: Vec<usize> = if deep { (0..n).collect() } else { vec![(i + 1) % n, (i + 4) % n, (i + 9) % n] };
